@@ -2225,7 +2225,7 @@ func (p *parser) parseElementListOrComprehension() (list []ast.Expr, mce *ast.Co
 		list = append(list, p.parseElement())
 		if p.tok == token.FOR { // for k, v <- container
 			if len(list) != 1 {
-				log.Panicln("TODO: invalid comprehension: too may elements.")
+				p.error(list[1].Pos(), "invalid comprehension: only one element expression allowed before 'for'")
 			}
 			phrases := p.parseForPhrases()
 			return nil, &ast.ComprehensionExpr{Elt: list[0], Fors: phrases}
